@@ -59,6 +59,8 @@ func (a *Anchors) labelObj(obj types.Object) string {
 			return "isexit"
 		case obj == a.RunCommandObj:
 			return "runcommand"
+		case a.ShellExec != nil && a.ShellExec != a.CmdRunner && a.is(obj, a.ShellExec):
+			return "runcommand" // the helper the command runner hands the shell execution to stands for the RunCommand call in its callers
 		}
 		return ""
 	}
